@@ -126,7 +126,7 @@ def main():
     chunks = [cases[i::nw] for i in range(nw)]
     from concurrent.futures import ThreadPoolExecutor
     with ThreadPoolExecutor(nw) as ex:
-        outs = list(ex.map(lambda ch: vf.impl("impl_calls.py", {"mode": "errors", "cases": ch}), chunks))
+        outs = list(ex.map(lambda kc: vf.impl("impl_calls.py", {"mode": "errors", "cases": kc[1]}, bg=(kc[0] % 3 == 1)), list(enumerate(chunks))))
     cat_dtypes, results = {}, {}
     for ch, o in zip(chunks, outs):
         cat_dtypes.update(o["cat_dtypes"])
